@@ -520,6 +520,11 @@ func TestVerif_C16(t *testing.T) {
 	if rp := vkit.ReplayRequest(); rp != nil {
 		var c c16Case
 		remarshalC16(rp["case"], &c)
+		if c.Part != "a" && c.Part != "b" {
+			R.Note("replay file describes a case of the other variant (split): nothing to do in this one")
+			R.Case(false, "")
+			return
+		}
 		seen := map[string]int64{}
 		fails, failAt, reads, _, err := run(c, seen)
 		if err != nil {
